@@ -565,3 +565,106 @@ def replay_pumlguard(expr):
         return False, 'does not compile: ' + c.stderr[-300:]
     out = subprocess.run([binp], capture_output=True, text=True).stdout
     return ('FAIL' not in out), out.strip()
+
+
+# ------------------------------------------------------------------------------------------------ C20 (libFuzzer targets)
+def c20_run(prop, tier, seed):
+    """(a) basic_polymorphic stateful fuzz over a type grid, (b) queue / deferred queue / event pool lifetime through
+    machines for back (deque, circular), back11, backmp11 (both compile policies). Oracle and sanitizers inside the targets."""
+    import subprocess, shutil
+    from concurrent.futures import ThreadPoolExecutor
+    t0 = time.time()
+    plan = plans.PLANS[prop]
+    quick = tier == 'quick'
+    fz_dir = os.path.join(build.BUILD, 'c20b_' + build.tree_hash()[:16])
+    os.makedirs(fz_dir, exist_ok=True)
+    art = os.path.join(VERIF, 'replays', 'new')
+    os.makedirs(art, exist_ok=True)
+    targets = [('poly', 'poly_fuzz.cpp', [], 'POLY_FUZZ_STATS')]
+    for c in (1, 3, 4, 5, 7):
+        targets.append(('queue_%s' % build.CONFIGS[c], 'queue_fuzz.cpp', ['-DCFG=%d' % c], 'QUEUE_FUZZ_STATS'))
+    # -fno-sanitize=function: back11 and backmp11 favor_compile_time erase the event type of their dispatch cells by design
+    # (reinterpret_cast of function pointers); that is not a lifetime / memory error and would stop every run at the first call
+    flags = ['-std=gnu++17', '-g', '-O1', '-fsanitize=fuzzer,address,undefined', '-fno-sanitize=function', '-fno-sanitize-recover=undefined', '-I' + os.path.join(build.REPO, 'include')]
+
+    def build_t(t):
+        name, src, defs, _ = t
+        out = os.path.join(fz_dir, name)
+        if os.path.exists(out):
+            return name, None
+        c = subprocess.run(['clang++'] + flags + defs + [os.path.join(build.HARNESS, src), '-o', out + '.tmp'], capture_output=True, text=True)
+        if c.returncode != 0:
+            return name, c.stderr[-1500:]
+        os.rename(out + '.tmp', out)
+        return name, None
+    errors, lines = [], []
+    with ThreadPoolExecutor(max_workers=6) as tp:
+        for name, err in tp.map(build_t, targets):
+            if err:
+                errors.append(dict(error='%s does not build: %s' % (name, err)))
+    runs = dict(poly=150000 if quick else 20000000)
+    qruns = 60000 if quick else 6000000
+    nproc = 1 if quick else 3
+    procs = []
+    for name, src, defs, statvar in targets:
+        binp = os.path.join(fz_dir, name)
+        if not os.path.exists(binp):
+            continue
+        for w_ in range(nproc):
+            corpus = os.path.join(fz_dir, 'corpus_%s_%d_%s_%d' % (name, seed, tier, w_))
+            shutil.rmtree(corpus, ignore_errors=True)
+            os.makedirs(corpus)
+            stf = os.path.join(fz_dir, 'stats_%s_%d.json' % (name, w_))
+            if os.path.exists(stf):
+                os.remove(stf)
+            env = dict(os.environ)
+            env[statvar] = stf
+            n = (runs['poly'] if name == 'poly' else qruns) // nproc
+            p = subprocess.Popen([binp, '-seed=%d' % (seed * 1000 + w_ + 1), '-runs=%d' % n, '-max_len=256', '-print_final_stats=0',
+                                  '-artifact_prefix=%s/C20_%s_' % (art, name), corpus], env=env, stdout=subprocess.PIPE, stderr=subprocess.STDOUT, text=True)
+            procs.append((name, w_, p, stf, corpus))
+    per_target = {}
+    violations = 0
+    for name, w_, p, stf, corpus in procs:
+        out, _ = p.communicate()
+        shutil.rmtree(corpus, ignore_errors=True)
+        st_ = {}
+        if os.path.exists(stf):
+            try:
+                st_ = json.load(open(stf))
+            except Exception:
+                st_ = {}
+        agg = per_target.setdefault(name, {})
+        for k, v in st_.items():
+            agg[k] = agg.get(k, 0) + v
+        if p.returncode != 0:
+            artf = [l.split('written to ')[-1].strip() for l in out.split('\n') if 'Test unit written to' in l and ('crash-' in l or 'leak-' in l)]
+            why = [l for l in out.split('\n') if 'ORACLE-FAILURE' in l or 'ERROR: AddressSanitizer' in l or 'runtime error' in l or 'ERROR: LeakSanitizer' in l]
+            if artf:
+                lines.append('VIOLATION property=%s replay=%s' % (prop, artf[0]))
+                lines.append('  target %s: %s' % (name, ' | '.join(why)[:700]))
+                violations += 1
+            else:
+                errors.append(dict(error='%s ended with rc=%s without a crash artifact (inconclusive): %s' % (name, p.returncode, out[-400:])))
+    evaluations = sum(v.get('iterations', 0) for v in per_target.values())
+    distinct = sum(v.get('distinct_nontrivial', 0) for v in per_target.values())
+    ev = dict(property_id=prop, tier=tier, seed=seed, level='fault_enumeration',
+              coverage=dict(evaluations=evaluations, distinct_nontrivial=distinct, rule=plan['rule'],
+                            samples=[dict(target='poly', type_grid='sizes 1,8,31,32,39,40,41,47,48,49,64,200,512 x alignments 1,8,16,64 x {trivial, non-trivial copy, non-trivial dtor, throwing move, self-referential} = 130 types',
+                                          ops='make / emplace, copy-construct, copy-assign (incl. self), move-construct, move-assign (incl. self), destroy, assign into moved-from'),
+                                     dict(target='queue_*', events='EvA trivial 4B; EvB non-trivial 24B (inline); EvC non-trivial 200B (heap); EvD throwing move (heap); EvE 16-aligned 40B',
+                                          ops='process_event, enqueue_event, execute all/single, nested submission from an action, deferral at root and inside a submachine, clear queues, stop/start, copy/move machine (backmp11), destroy with events pending')],
+                            per_target=per_target, engine='libFuzzer (clang 14) -seed=%d, ASan+UBSan, oracle inside the target' % seed, harness_errors=errors[:6]),
+              assumptions=plan.get('assumptions', []), wall_s=round(time.time() - t0, 2), violations=violations)
+    os.makedirs(EVID, exist_ok=True)
+    json.dump(ev, open(os.path.join(EVID, prop + '.json'), 'w'), indent=1, default=str)
+    for l in lines:
+        print(l)
+    print('%s %s: %s; violations=%d wall=%.0fs' % (prop, tier, ', '.join('%s iters=%s' % (k, v.get('iterations')) for k, v in per_target.items()), violations, time.time() - t0))
+    if violations:
+        return 1
+    if errors or len(per_target) < len(targets) or any(v.get('iterations', 0) == 0 for v in per_target.values()):
+        for e in errors[:5]:
+            print('HARNESS-ERROR:', json.dumps(e)[:1200])
+        return 2
+    return 0
